@@ -2,6 +2,8 @@ package nfa
 
 import (
 	"regexp/syntax"
+	"unicode"
+	"unicode/utf8"
 )
 
 // FirstByteSet represents the set of bytes that can start a match.
@@ -37,6 +39,23 @@ func (f *FirstByteSet) IsComplete() bool {
 //   - Set is incomplete (pattern may match starting with unknown bytes)
 func (f *FirstByteSet) IsUseful() bool {
 	return f.complete && f.count > 0 && f.count < 256
+}
+
+// IsByteClass reports whether membership of a rune in the character class can
+// be decided byte by byte: every range is ASCII, or it covers all of
+// non-ASCII (then every byte >= 0x80, part of valid UTF-8 or not, belongs to
+// a member rune).
+func IsByteClass(re *syntax.Regexp) bool {
+	if len(re.Rune)%2 != 0 {
+		return false
+	}
+	for i := 0; i+1 < len(re.Rune); i += 2 {
+		lo, hi := re.Rune[i], re.Rune[i+1]
+		if hi >= utf8.RuneSelf && (lo > utf8.RuneSelf || hi != unicode.MaxRune) {
+			return false
+		}
+	}
+	return true
 }
 
 // ExtractFirstBytes extracts the set of possible first bytes from a pattern.
@@ -77,8 +96,11 @@ func extractFirstBytesRecursive(re *syntax.Regexp, result *FirstByteSet, depth i
 			return false // Empty literal matches empty string
 		}
 		r := re.Rune[0]
-		if r > 255 {
-			return false // Non-ASCII, too complex
+		if r >= utf8.RuneSelf {
+			return false // Non-ASCII: the first byte is a UTF-8 lead byte, too complex
+		}
+		if re.Flags&syntax.FoldCase != 0 {
+			return false // case-insensitive: the other case may start the match
 		}
 		result.bytes[byte(r)] = true
 		result.count++
@@ -86,6 +108,9 @@ func extractFirstBytesRecursive(re *syntax.Regexp, result *FirstByteSet, depth i
 
 	case syntax.OpCharClass:
 		// Character class: add all bytes in the class
+		if !IsByteClass(re) {
+			return false // some non-ASCII members: first bytes are UTF-8 lead bytes
+		}
 		for i := 0; i < len(re.Rune); i += 2 {
 			lo, hi := re.Rune[i], re.Rune[i+1]
 			if hi > 255 {
@@ -127,8 +152,9 @@ func extractFirstBytesRecursive(re *syntax.Regexp, result *FirstByteSet, depth i
 		// Anchors don't consume bytes, skip to next
 		return true
 
-	case syntax.OpEndLine, syntax.OpEndText:
-		// End anchors: pattern could match at end, need to check next part
+	case syntax.OpEndText:
+		// End of text: an empty match at position 0 needs an empty haystack,
+		// which the callers never filter
 		return true
 
 	case syntax.OpCapture:
